@@ -616,7 +616,7 @@ PROPS.update({
     ),
     'C14': dict(
         explanation='theorems: the re-emitted item is the input minus exactly the attributes the documentation assigns to the derived traits, on success, on a per-trait error and when the argument list itself is rejected; impl items and unsupported items verbatim (reemit_*, foreign_kept, underived_helper_kept). L1 item segment on families rich in foreign and helper-like attributes; L2 through the real entry points.',
-        theorems=[('DeriveExModel.Props.Tables', ['DX.isMatch_table_model', 'DX.isMatch_table_doc', 'DX.isMatch_table_complete']), ('DeriveExModel.Props.DocTables', ['DX.doc_attr_trait_table', 'DX.doc_attr_trait_complete', 'DX.doc_affects_table']), (CMP + 'C14', ['DX.isMatch_extend', 'DX.reemit_exact_struct', 'DX.reemit_exact_enum',
+        theorems=[('DeriveExModel.Props.Tables', ['DX.isMatch_table_model', 'DX.isMatch_table_doc', 'DX.isMatch_table_complete']), ('DeriveExModel.Props.DocTables', ['DX.doc_attr_trait_table', 'DX.doc_attr_trait_complete', 'DX.doc_affects_table']), ('DeriveExModel.Props.AttrName', ['DX.kind_plain', 'DX.kind_spelling', 'DX.kind_raw', 'DX.kind_deriveEx_iff', 'DX.kind_helper_single', 'DX.kind_name']), (CMP + 'C14', ['DX.isMatch_extend', 'DX.reemit_exact_struct', 'DX.reemit_exact_enum',
                                  'DX.reemit_on_arg_error_struct', 'DX.reemit_on_arg_error_enum', 'DX.reemit_impl',
                                  'DX.reemit_other', 'DX.item_always_emitted', 'DX.foreign_kept', 'DX.strip_is_sublist',
                                  'DX.underived_helper_kept', 'DX.fromRoot_foreign', 'DX.fromAttrs_foreign'])],
@@ -630,7 +630,7 @@ PROPS.update({
     ),
     'C15': dict(
         explanation='theorems: the impls are the same through either entry point, for merged and split lists, in list order (entry_equiv_*, split_equiv, order_preserved); an entry of the list yields the same impls under any two co-derived sets when the item carries no helper attribute that belongs only to the other traits (struct_any_coderived_set, enum_any_coderived_set). Metamorphic real-vs-real comparisons need no model: attribute macro vs #[derive(Ex)], merged vs split, one trait alone vs with the others.',
-        theorems=[('DeriveExModel.Props.Tables', ['DX.isMatch_table_model', 'DX.isMatch_table_doc', 'DX.isMatch_table_complete']), ('DeriveExModel.Props.DocTables', ['DX.doc_attr_trait_table', 'DX.doc_attr_trait_complete', 'DX.doc_affects_table']), (CMP + 'C15', ['DX.entry_equiv_struct', 'DX.entry_equiv_enum', 'DX.entry_equiv_segments_struct',
+        theorems=[('DeriveExModel.Props.Tables', ['DX.isMatch_table_model', 'DX.isMatch_table_doc', 'DX.isMatch_table_complete']), ('DeriveExModel.Props.DocTables', ['DX.doc_attr_trait_table', 'DX.doc_attr_trait_complete', 'DX.doc_affects_table']), ('DeriveExModel.Props.AttrName', ['DX.kind_plain', 'DX.kind_spelling', 'DX.kind_raw', 'DX.kind_deriveEx_iff', 'DX.kind_helper_single', 'DX.kind_name']), (CMP + 'C15', ['DX.entry_equiv_struct', 'DX.entry_equiv_enum', 'DX.entry_equiv_segments_struct',
                                  'DX.entry_equiv_segments_enum', 'DX.split_equiv', 'DX.order_preserved', 'DX.fromAttrs_congr']),
                   (CMP + 'C15Co', ['DX.struct_any_coderived_set', 'DX.enum_any_coderived_set', 'DX.struct_entry_codrived_independent',
                                    'DX.enum_entry_codrived_independent', 'DX.structCore_entries', 'DX.agreeOn_of_noneOnlyForOthers'])],
